@@ -15,8 +15,8 @@
  * Part E (degenerate vnadata objects): 12 routes to a boundary shape x 11
  * types x 22 operations (saves to every file family, conversions, setters,
  * resize, load).
- * Part F (fresh calibration objects): 6 early states x 8 types x 3 shapes x
- * 15 operations.
+ * Part F (fresh calibration objects): 7 early states x 8 types x 4 shapes x
+ * 18 operations.
  * Oracle: process survives, ASan/UBSan silent, call returns, invalid calls
  * return the documented failure value, after the free functions the
  * allocation accounting is back at the baseline.  No numeric oracle.
@@ -829,21 +829,24 @@ static void run_ve(long idx, vf_result *r)
  * operation of the list is applied; the objects are queried and freed.
  * Survival, sanitizers and the allocation accounting only.
  */
-enum { VF_CREATE, VF_ALLOC_0F, VF_ALLOC_NOFV, VF_ALLOC_FV, VF_ONE_STD,
-    VF_ONE_STD_SOLVED_FAIL, VF_NROUTE };
+enum { VF_CREATE, VF_ALLOC_0F, VF_ALLOC_0F_FV, VF_ALLOC_NOFV, VF_ALLOC_FV,
+    VF_ONE_STD, VF_ONE_STD_SOLVED_FAIL, VF_NROUTE };
 static const char *const vfr_name[VF_NROUTE] = {
     "vnacal_create only", "new_alloc with 0 frequencies",
+    "new_alloc with 0 frequencies + set_frequency_vector",
     "new_alloc, no frequency vector", "new_alloc + frequency vector",
     "one standard added", "one standard added and a failed solve",
 };
 static const vnacal_type_t vfr_types[8] = { VNACAL_T8, VNACAL_U8,
     VNACAL_TE10, VNACAL_UE10, VNACAL_T16, VNACAL_U16, VNACAL_UE14,
     VNACAL_E12 };
-static const int vfr_dims[3][2] = { { 1, 1 }, { 2, 2 }, { 1, 2 } };
+#define VFR_NDIM 4
+static const int vfr_dims[VFR_NDIM][2] = { { 1, 1 }, { 2, 2 }, { 1, 2 },
+    { 2, 3 } };
 enum { FO_SOLVE, FO_ADDCAL, FO_SAVE_LOAD, FO_APPLY0, FO_GETTERS,
     FO_PROPS, FO_M_ERROR, FO_M_ERROR_GRID, FO_SET_Z0, FO_SETTINGS,
     FO_ADD_EACH, FO_ADD_AB_EACH, FO_PARAMS, FO_DEL_PREDEF, FO_SOLVE_TWICE,
-    FO_FREE_FIRST, FO_NOP };
+    FO_ADD_ABBREV, FO_CORR_MERR, FO_TRL_ONEPORT, FO_NOP };
 static const char *const vfo_name[FO_NOP] = {
     "solve", "add_calibration", "save + load", "apply calibration 0",
     "every vnacal getter at ci -1..1", "properties at ci -1 and 0",
@@ -851,7 +854,10 @@ static const char *const vfo_name[FO_NOP] = {
     "set_z0", "tolerances, limits, pvalue", "every add_*_m entry point",
     "every add_* (a, b) entry point", "every parameter kind, evaluated",
     "delete predefined parameters", "solve twice",
-    "vnacal_free before vnacal_new_free is not allowed: new_free first",
+    "single reflect with a 1x1 measurement on every port in turn",
+    "error model, short, open and a load correlated with MATCH, solve",
+    "through, unknown reflect on port 2 only, line of unknown "
+	"transmission, solve",
 };
 
 static void vfr_query(vnacal_t *vcp)
@@ -876,13 +882,13 @@ static void vfr_query(vnacal_t *vcp)
     (void)sink;
 }
 
-static long vfr_count(void) { return (long)VF_NROUTE * 8 * 3; }
+static long vfr_count(void) { return (long)VF_NROUTE * 8 * VFR_NDIM; }
 
 static void run_vfr(long idx, vf_result *r)
 {
     fx_t *F = &c3_F;
     static vf_errlog lg;
-    int di = (int)(idx % 3); idx /= 3;
+    int di = (int)(idx % VFR_NDIM); idx /= VFR_NDIM;
     int ti = (int)(idx % 8); idx /= 8;
     int route = (int)idx;
     vnacal_type_t type = vfr_types[ti];
@@ -918,8 +924,8 @@ static void run_vfr(long idx, vf_result *r)
 	    continue;
 	if (route >= VF_ALLOC_0F)
 	    vnp = vnacal_new_alloc(vcp, type, rows, cols,
-		    route == VF_ALLOC_0F ? 0 : 3);
-	if (vnp != NULL && route >= VF_ALLOC_FV)
+		    route <= VF_ALLOC_0F_FV ? 0 : 3);
+	if (vnp != NULL && (route >= VF_ALLOC_FV || route == VF_ALLOC_0F_FV))
 	    (void)vnacal_new_set_frequency_vector(vnp, F->f3);
 	if (vnp != NULL && route >= VF_ONE_STD)
 	    (void)vnacal_new_add_single_reflect_m(vnp, F->mp, rows, cols,
@@ -1040,6 +1046,50 @@ static void run_vfr(long idx, vf_result *r)
 		(void)vnacal_delete_parameter(vcp, pp[i]);
 	    break;
 	}
+	case FO_ADD_ABBREV:
+	    if (vnp) {
+		int ports = rows > cols ? rows : cols;
+		for (int port = 1; port <= ports + 1; ++port)
+		    (void)vnacal_new_add_single_reflect_m(vnp, F->mp, 1, 1,
+			    VNACAL_SHORT, port);
+		(void)vnacal_new_add_double_reflect_m(vnp, F->mp, 1, 2,
+			VNACAL_SHORT, VNACAL_OPEN, 1, ports);
+		(void)vnacal_new_add_double_reflect_m(vnp, F->mp, 2, 1,
+			VNACAL_SHORT, VNACAL_OPEN, ports, 1);
+		(void)vnacal_new_add_through_m(vnp, F->mp, 2, 2, ports, 1);
+		(void)vnacal_new_solve(vnp);
+	    }
+	    break;
+	case FO_CORR_MERR:
+	    if (vnp) {
+		int pc = vnacal_make_correlated_parameter(vcp, VNACAL_MATCH,
+			NULL, 1, sig1);
+		(void)vnacal_new_set_m_error(vnp, NULL, 1, sig1, NULL);
+		(void)vnacal_new_add_single_reflect_m(vnp, F->mp, rows, cols,
+			VNACAL_SHORT, 1);
+		(void)vnacal_new_add_single_reflect_m(vnp, F->mp, rows, cols,
+			VNACAL_OPEN, 1);
+		(void)vnacal_new_add_single_reflect_m(vnp, F->mp, rows, cols,
+			pc, 1);
+		(void)vnacal_new_solve(vnp);
+		(void)vnacal_get_parameter_value(vcp, pc, F->f3[0]);
+		(void)vnacal_delete_parameter(vcp, pc);
+	    }
+	    break;
+	case FO_TRL_ONEPORT:
+	    if (vnp) {
+		int pr = vnacal_make_unknown_parameter(vcp, VNACAL_SHORT);
+		int pl = vnacal_make_unknown_parameter(vcp, VNACAL_OPEN);
+		int ln[4] = { VNACAL_MATCH, pl, pl, VNACAL_MATCH };
+		(void)vnacal_new_add_through_m(vnp, F->mp, rows, cols, 1, 2);
+		(void)vnacal_new_add_single_reflect_m(vnp, F->mp, rows, cols,
+			pr, 2);
+		(void)vnacal_new_add_line_m(vnp, F->mp, rows, cols, ln, 1, 2);
+		(void)vnacal_new_solve(vnp);
+		(void)vnacal_delete_parameter(vcp, pl);
+		(void)vnacal_delete_parameter(vcp, pr);
+	    }
+	    break;
 	case FO_DEL_PREDEF:
 	    (void)vnacal_delete_parameter(vcp, VNACAL_MATCH);
 	    (void)vnacal_delete_parameter(vcp, VNACAL_OPEN);
